@@ -486,6 +486,13 @@ class Alg:
                 if ch:
                     self.env_attr(".".join(ch), self.ev(stmt.value))
                     return True
+            if isinstance(t, ast.Tuple) and all(isinstance(e, ast.Name) for e in t.elts) and isinstance(stmt.value, (ast.Name, ast.Attribute)) \
+                    and self.ev_tuple(stmt.value) is None and self.point_value(stmt.value) is None and attr_chain(stmt.value):
+                # unpacking a sequence-valued name: a, b = p  binds a = p[0], b = p[1]
+                base = ".".join(attr_chain(stmt.value))
+                for i, tt in enumerate(t.elts):
+                    self.env[tt.id] = self.ev(ast.Subscript(value=stmt.value, slice=ast.Constant(value=i), ctx=ast.Load()))
+                return True
             if isinstance(t, ast.Tuple) and all(isinstance(e, (ast.Name, ast.Attribute)) for e in t.elts):
                 vals = self.ev_tuple(stmt.value)
                 if vals is not None and len(vals) == len(t.elts):
